@@ -1,7 +1,59 @@
-(* placeholder until the codec theorems land *)
+(* C06 - the password file is bound to the server's static key.  Statements only; proofs in
+   Theory/Honest.v, Theory/Binding.v, Theory/Substituted.v. *)
 From Coq Require Import List.
-From OKE Require Import BytesLemmas.
-Theorem C06_placeholder : forall l x y px py r1 r2,
-  Bytes.lenprefix l x = Some px -> Bytes.lenprefix l y = Some py -> px ++ r1 = py ++ r2 -> x = y /\ r1 = r2.
-Proof. exact lenprefix_inj. Qed.
-Print Assumptions C06_placeholder.
+From OKE Require Import Bytes Suite Voprf Messages Envelope TripleDH Opaque Laws Transcript Bad Binding Honest Substituted.
+
+(* the server public key reported at registration and at a successful login is the public key of the setup *)
+Theorem C06_reported_key :
+  forall E Sc Pk Sk (CS : Suite E Sc Pk Sk), HashLaws (hash CS) -> GroupLaws CS ->
+  forall tape setup t1 pw creg rq t2 cred rr ids ksf upload ek spk t3 clog ke1 t4 ctx slog ke2 t5 dbg,
+    ve CS (o_h2g (oprf CS) pw (dst_hash_to_group (oprf CS))) ->
+    server_setup_new CS tape = Ok (setup, t1) ->
+    client_registration_start CS t1 pw = Ok (creg, rq, t2) ->
+    server_registration_start CS setup rq cred = Ok rr ->
+    client_registration_finish CS creg t2 pw rr ids ksf = Ok (upload, ek, spk, t3) ->
+    client_login_start CS t3 pw = Ok (clog, ke1, t4) ->
+    server_login_start CS (private_key_ops (ke CS)) t4 setup (Some (server_registration_finish upload)) ke1 cred ctx ids
+      = Ok (slog, ke2, t5, dbg) ->
+    o_eqb (oprf CS) (cq_blinded ke1) (cr_eval ke2) = false ->
+    exists ke3 sk dbg',
+      client_login_finish CS clog pw ke2 ctx ids ksf = Ok (ke3, sk, ek, spk, dbg') /\
+      server_login_finish CS slog ke3 = Ok sk /\
+      spk = kp_pk (ss_keypair setup) /\ kp_pk (ss_keypair setup) = k_pub (ke CS) (kp_sk (ss_keypair setup)).
+Proof. exact @honest_login_agrees. Qed.
+Print Assumptions C06_reported_key.
+
+(* the envelope tag binds the server public key and the sealed identities: opening under anything else
+   succeeds only with an exhibited HMAC collision (same key, different messages) *)
+Theorem C06_envelope_binds :
+  forall E Sc Pk Sk (CS : Suite E Sc Pk Sk) tape rp spk ids env cpk ek rest spk' ids' r,
+    envelope_seal CS tape rp spk ids = Ok (env, cpk, ek, rest) ->
+    envelope_open CS env rp spk' ids' = Ok r ->
+    length (k_ser_pk (ke CS) spk) = length (k_ser_pk (ke CS) spk') ->
+    (k_ser_pk (ke CS) spk' = k_ser_pk (ke CS) spk /\
+     effective (id_client ids') (k_ser_pk (ke CS) cpk) = effective (id_client ids) (k_ser_pk (ke CS) cpk) /\
+     effective (id_server ids') (k_ser_pk (ke CS) spk') = effective (id_server ids) (k_ser_pk (ke CS) spk))
+    \/ Bad (hash CS).
+Proof. exact @envelope_binds. Qed.
+Print Assumptions C06_envelope_binds.
+
+(* a stolen file served under another static key pair by a holder of the genuine OPRF seed:
+   the client's final step fails with InvalidLogin (or an HMAC collision is exhibited) *)
+Theorem C06_substituted_key :
+  forall E Sc Pk Sk (CS : Suite E Sc Pk Sk), HashLaws (hash CS) -> GroupLaws CS ->
+  forall tape setup t1 pw creg rq t2 cred rr ids ksf upload ek spk t3 clog ke1 t4 ctx slog ke2 t5 dbg setup',
+    ve CS (o_h2g (oprf CS) pw (dst_hash_to_group (oprf CS))) ->
+    server_setup_new CS tape = Ok (setup, t1) ->
+    client_registration_start CS t1 pw = Ok (creg, rq, t2) ->
+    server_registration_start CS setup rq cred = Ok rr ->
+    client_registration_finish CS creg t2 pw rr ids ksf = Ok (upload, ek, spk, t3) ->
+    client_login_start CS t3 pw = Ok (clog, ke1, t4) ->
+    ss_oprf_seed setup' = ss_oprf_seed setup ->
+    vk CS (kp_sk (ss_keypair setup')) ->
+    k_ser_pk (ke CS) (k_pub (ke CS) (kp_sk (ss_keypair setup'))) <> k_ser_pk (ke CS) (kp_pk (ss_keypair setup)) ->
+    server_login_start CS (private_key_ops (ke CS)) t4 setup' (Some (server_registration_finish upload)) ke1 cred ctx ids
+      = Ok (slog, ke2, t5, dbg) ->
+    o_eqb (oprf CS) (cq_blinded ke1) (cr_eval ke2) = false ->
+    client_login_finish CS clog pw ke2 ctx ids ksf = Err EInvalidLogin \/ Bad (hash CS).
+Proof. exact @substituted_key_rejected. Qed.
+Print Assumptions C06_substituted_key.
